@@ -7,6 +7,7 @@ import (
 	"path/filepath"
 	"sort"
 	"strconv"
+	"strings"
 	"sync/atomic"
 	"time"
 
@@ -203,12 +204,12 @@ func newVFan(ctx *Ctx, withEnable, withRpm bool) *VFan {
 }
 
 func (v *VFan) Pwm() int {
-	n, _ := strconv.Atoi(driver.Mem[v.PwmPath])
+	n, _ := strconv.Atoi(strings.TrimSpace(driver.Mem[v.PwmPath]))
 	return n
 }
 func (v *VFan) SetPwmRaw(p int)  { driver.Mem[v.PwmPath] = strconv.Itoa(p) }
 func (v *VFan) Mode() int {
-	n, _ := strconv.Atoi(driver.Mem[v.EnablePath])
+	n, _ := strconv.Atoi(strings.TrimSpace(driver.Mem[v.EnablePath]))
 	return n
 }
 func (v *VFan) SetModeRaw(m int) { driver.Mem[v.EnablePath] = strconv.Itoa(m) }
